@@ -61,6 +61,8 @@ type Gen struct {
 	Witness bool
 	// MaxTx bounds the number of non-coinbase transactions per block (default 6).
 	MaxTx int
+	// StandardOnly restricts generated output scripts to standard, signature-locked kinds (relay-policy tests).
+	StandardOnly bool
 	// ClockNow, when non-zero, is the node's (fake) adjusted time: a block whose timestamp lies more than
 	// two hours after it is labelled invalid (it inherits a too-new parent's timestamp).
 	ClockNow int64
@@ -129,6 +131,13 @@ func (g *Gen) Script(kind Kind, key int, r *mon.Rand) []byte {
 
 // RandomKind picks an output kind (witness kinds only when allowed).
 func (g *Gen) RandomKind(r *mon.Rand) Kind {
+	if g.StandardOnly {
+		ks := []Kind{KP2PKH, KP2PK}
+		if g.Witness {
+			ks = append(ks, KP2WPKH, KP2TR)
+		}
+		return ks[r.Intn(len(ks))]
+	}
 	for {
 		var k Kind
 		switch r.Intn(10) {
@@ -633,7 +642,7 @@ func (g *Gen) Block(r *mon.Rand, parent *refchain.Block, o BlockOpts) *refchain.
 	sig = append(sig, r.Bytes(8)...)
 	cb.AddTxIn(&wire.TxIn{PreviousOutPoint: wire.OutPoint{Index: 0xffffffff}, SignatureScript: sig, Sequence: 0xffffffff})
 	cbKind := o.CoinbaseKind
-	if cbKind == 0 && r.Chance(1, 3) {
+	if cbKind == 0 && (g.StandardOnly || r.Chance(1, 3)) {
 		cbKind = g.RandomKind(r)
 	}
 	cb.AddTxOut(&wire.TxOut{Value: subsidy + fees - o.ShortPay, PkScript: g.Script(cbKind, r.Intn(len(g.keys)), r)})
